@@ -87,6 +87,54 @@ theorem renders_wrap {h : Nat} {inner : Str} {es : List Elem} (ws name : Str) (a
     rw [li, lexAll'_cons _ _ _ (lexOne_closingTag ws2 name rest hws2 hname) (by simp) (by simp)]
     simp
 
+
+/-! ## attribute lists given as names × values -/
+
+theorem attr_render (n : String) (v : Str) : attr n v = renderAttrs [(n.toList, v)] := by
+  simp [attr, renderAttrs]
+
+def distinctNames : List Str → Bool
+  | [] => true
+  | n :: r => !(r.contains n) && distinctNames r
+
+/-- attribute names: tinyxml2 names, NUL-free, pairwise different (decided on the literal lists) -/
+def NamesOK (names : List Str) : Bool := names.all (fun n => IsName n && !(n.contains NUL)) && distinctNames names
+
+/-- an attribute value that can be written between double quotes -/
+def Clean (v : Str) : Prop := v.contains '"' = false ∧ v.contains NUL = false
+
+theorem zip_any_fst (names : List Str) (vals : List Str) (n : Str) (h : names.contains n = false) :
+    ((names.zip vals).any fun b => b.1 == n) = false := by
+  induction names generalizing vals with
+  | nil => simp
+  | cons a r ih =>
+    cases vals with
+    | nil => simp
+    | cons v vs =>
+      simp only [List.contains_cons, Bool.or_eq_false_iff] at h
+      simp only [List.zip_cons_cons, List.any_cons, Bool.or_eq_false_iff]
+      refine ⟨?_, ih vs h.2⟩
+      cases hb : (a == n) with
+      | false => rfl
+      | true => rw [eq_of_beq hb] at h; simp at h
+
+theorem attrsOK_zip : ∀ (names vals : List Str), NamesOK names = true → (∀ v ∈ vals, Clean v) → AttrsOK (names.zip vals) = true := by
+  intro names
+  induction names with
+  | nil => intro vals _ _; rfl
+  | cons n r ih =>
+    intro vals hn hv
+    cases vals with
+    | nil => rfl
+    | cons v vs =>
+      simp only [NamesOK, List.all_cons, distinctNames, Bool.and_eq_true, Bool.not_eq_true'] at hn
+      obtain ⟨⟨⟨hname, hnul⟩, hall⟩, hnotin, hdist⟩ := hn
+      have hr := ih vs (by simp only [NamesOK, Bool.and_eq_true]; exact ⟨hall, hdist⟩) (fun x hx => hv x (by simp [hx]))
+      have hvv := hv v (by simp)
+      simp only [AttrsOK, Bool.and_eq_true] at hr
+      simp only [AttrsOK, List.zip_cons_cons, AttrsWF, List.all_cons, Bool.and_eq_true, Bool.not_eq_true']
+      exact ⟨⟨⟨⟨hname, zip_any_fst r vs n hnotin⟩, hvv.1⟩, hr.1⟩, ⟨hnul, hvv.2⟩, hr.2⟩
+
 /-! ## the document around it -/
 
 theorem hasBOM_lt (r : Str) : hasBOM ('<' :: r) = false := by
@@ -106,21 +154,6 @@ theorem parseDoc_root {h : Nat} (declBody : Str) (afterDecl : Str) (root : Str) 
     parseDoc ('<' :: '?' :: declBody) = .ok [e] := by
   obtain ⟨ws0, hws0, rfl⟩ := hsplit
   obtain ⟨nr, ts, lr, br⟩ := r
-  -- NUL-free
-  have hsub : ∀ c ∈ ws0 ++ root ++ ws, c ∈ declBody := by
-    have key : ∀ (s r : Str), splitDeclEnd s = some r → ∀ c ∈ r, c ∈ s := by
-      intro s
-      induction s with
-      | nil => intro r h; simp [splitDeclEnd] at h
-      | cons a t ih =>
-        intro r h c hc
-        simp only [splitDeclEnd] at h
-        split at h
-        · simp only [Option.some.injEq] at h
-          subst h
-          exact List.mem_cons_of_mem _ (List.mem_of_mem_tail hc)
-        · exact List.mem_cons_of_mem _ (ih r h c hc)
-    exact key _ _ hdecl
   have hn : NUL ∉ ('<' :: '?' :: declBody) := by
     simp only [List.mem_cons, not_or]
     exact ⟨by decide, by decide, hnd⟩
